@@ -346,6 +346,11 @@ Http::One::RequestParser::doParse(const SBuf &aBuf)
     if (parsingStage_ == HTTP_PARSE_NONE) {
         skipGarbageLines();
 
+        // a lone CR may be the first half of a tolerated empty line whose LF
+        // has not arrived yet; do not start parsing a request line with it
+        if (Config.onoff.relaxed_header_parser && buf_.length() == 1 && buf_[0] == '\r')
+            return false;
+
         // if we hit something before EOS treat it as a message
         if (!buf_.isEmpty())
             parsingStage_ = HTTP_PARSE_FIRST;
